@@ -10,6 +10,14 @@ CLAIMED = {
   text="Bounded model checking of the real code: Interval.within (scalar and array), util.apply_threshold, apply_threshold_prob and get_intervals are executed on symbolic values/thresholds (finite, NaN, +-inf) for all 8 bin types; on every feasible path z3 proves membership == documented inequality, NaN in no event, mutual agreement, the within= partition and above = not below=. All values within the bound (arrays <= 2/3, <= 2/3 thresholds) are covered by the solver, not sampled.",
   note="Trusted: symx value model (extended reals, no rounding), NumPy shape/indexing executed natively, the validated library models listed in the evidence. Outside: Hist/Freq counting loops behind pyplot, arrays above the bound.",
   ref="3 C07"),
+ "C06": dict(
+  text="Bounded model checking of the real code: all 25 Contingency.compute_from_abcd on symbolic integer tables (a,b,c,d in [0,6] quick / [0,40] thorough) against textbook formulas with undefined -> NaN, never +-inf; _compute_abcd/compute_from_obs_fcst on 2-3 symbolic (obs,fcst) pairs with NaN, symbolic thresholds and all 8 bin types against event counts, with the obs<->fcst exchange and event-complement relations. Every feasible path is decided by z3 for all values.",
+  note="Trusted: symx value model; log as uninterpreted strictly monotone function (formulas compared modulo the product rule). Outside: tables above the bound, the resampling variant (np.random).",
+  ref="3 C06"),
+ "C05": dict(
+  text="Bounded model checking of the real code: every ObsFcstBased metric (7 with all 18 aggregator choices, 13 without), Within, Conditional, XConditional, Count on 0..2/3 symbolic pairs (finite or NaN); per path z3 proves result == literature definition on the valid pairs, undefined -> non-finite, perfect forecast -> perfect_score, nothing better than perfect_score. rankcorr/kendallcorr: guards and argument flow only (SciPy is a stub).",
+  note="Trusted: symx value model and validated NumPy models (mean/std/percentile/sort/corrcoef); exp/log uninterpreted. Non-linear metrics are bounded one pair lower. Outside: IEEE rounding, vectors above the bound, SciPy rank statistics.",
+  ref="3 C05"),
 }
 
 PENDING = {}
